@@ -32,7 +32,7 @@ def plan(tier, seed):
             jobs.append({"id": f"C06:mask-generated {spec}[{variant}] n={n}", "module": "vf.checkers", "func": "mask_solutions_accepted_job",
                          "params": dict(spec=spec, variant=variant, n=n)})
         pairs.append((spec, variant, nq + 2))
-    IMPROVE_READY = False
+    IMPROVE_READY = True
     if IMPROVE_READY:
         jobs.append({"id": "C06:improvement checkers", "module": "vf.improve", "func": "improvement_checker_job", "params": dict(n=4 if tier == "quick" else 5)})
     return {
